@@ -1,6 +1,6 @@
 """C16 - Fortran readers never raise.  Rules EXC, WHOCALL."""
 import ast
-from ..core import AnalysisError, norm, dotted, call_name, walk_no_nested, const_str
+from ..core import argof, AnalysisError, norm, dotted, call_name, walk_no_nested, const_str
 
 LEVEL = 'other'
 EXPLANATION = (
@@ -346,9 +346,10 @@ def rule_normflow(run):
     if len(sib) != 2:
         run.unknown(key, '%d sign-replacing fallbacks found (2 expected)' % len(sib), where=fi.where()); return
 
+    from .. import roles
     def protects(c):
-        # the replace applies to s[1:] and the result is re-joined with s[0]
-        v = c.func.value
+        # the replace applies to s[1:] and the result is re-joined with s[0]  (s[1:] may be held in a local: `first, rest = s[0], s[1:]`)
+        v = roles.inline_locals(c.func.value, fi.node.body)
         return isinstance(v, ast.Subscript) and isinstance(v.slice, ast.Slice) and v.slice.lower is not None and \
             isinstance(v.slice.lower, ast.Constant) and v.slice.lower.value == 1 and v.slice.upper is None
     p = [protects(c) for c in sib]
@@ -431,8 +432,8 @@ def rule_whocall(run):
     okp = False
     for c in walk_no_nested(rd.node):
         if isinstance(c, ast.Call) and call_name(c) == 't2incon_parser':
-            for k in c.keywords:
-                if k.arg == 'read_function' and dotted(k.value) == 'self.read_function': okp = True
+            a_ = argof(c, 'read_function')
+            if a_ is not None and dotted(a_) == 'self.read_function': okp = True
     run.check(okp, 't2incon.read :: parser gets self.read_function',
               't2incon.read does not construct its parser with read_function = self.read_function', where=rd.where())
     # 3. listing cells
